@@ -41,6 +41,7 @@ class Ctx:
         self.functions_consulted: set = set()
         self.rule_floor: Dict[str, int] = {}
         self.cur_rule = ""
+        self._shape = 0  # > 0 while a shape rule is running (see shape_rule below)
 
     # -- recording
     def _add(self, status, f: Optional[Func], node, construct: str, detail: str, rule: Optional[str] = None):
@@ -48,6 +49,10 @@ class Ctx:
         fn = f.qualname if f is not None else "<package>"
         if f is not None:
             self.functions_consulted.add(f.qualname)
+        if status == VIOLATED and self._shape and f is not None and not os.environ.get("VK_NO_GATING") and _restructured(self.prog, f):
+            status = UNDECIDED
+            detail = (f"{f.short} has been restructured (its statement skeleton differs from the one this shape rule was written for); "
+                      f"the rule cannot decide it. Was: {detail}")[:600]
         ob = Ob(rule or self.cur_rule, status, site, fn, construct, detail)
         self.obs.append(ob)
         return ob
@@ -77,6 +82,41 @@ class Ctx:
 
     def consult(self, f: Func):
         self.functions_consulted.add(f.qualname)
+
+
+_SKELETONS: Optional[Dict[str, Dict[str, str]]] = None
+
+
+def _restructured(prog: Program, f: Func) -> bool:
+    """Does f's statement skeleton differ from the recorded one (or is f not a recorded function at all)?"""
+    global _SKELETONS
+    from . import skeleton
+    if _SKELETONS is None:
+        p = os.path.join(VERIF, "known_functions.json")
+        _SKELETONS = json.load(open(p)) if os.path.exists(p) else {}
+    rec = _SKELETONS.get(f.module.path)
+    if not isinstance(rec, dict):
+        return False  # no record: the rule keeps its verdict
+    q = f.qualname[len(f.module.name) + 1:] if f.qualname.startswith(f.module.name + ".") else f.qualname
+    want = rec.get(q)
+    if want is None:
+        return "<locals>" not in q  # an unrecorded (new) function; nested functions are not recorded
+    return skeleton.digest(f.node) != want
+
+
+def shape_rule(fn):
+    """Marks a rule that recognises its construct by the arrangement of the statements around it (see vk/skeleton.py)."""
+    import functools
+
+    @functools.wraps(fn)
+    def wrapper(ctx):
+        ctx._shape += 1
+        try:
+            return fn(ctx)
+        finally:
+            ctx._shape -= 1
+    wrapper.is_shape_rule = True
+    return wrapper
 
 
 def load_known(path: Optional[str] = None) -> List[dict]:
